@@ -125,18 +125,14 @@ func cphases() []cphase {
 		return map[string]int{"set": 10, "setex": 10, "setshort": 2, "setstr": 2, "fset": 10, "del": 6, "expire": 10, "persist": 10, "jset": 6, "pdel": 2}
 	}
 	ph := []cphase{{"mixed", base()}}
-	for _, k := range []string{"persist", "set", "fset", "del", "expire", "jset", "pdel"} {
+	// expire-heavy comes before persist-heavy: PERSIST only touches objects that have a TTL
+	for _, k := range []string{"expire", "persist", "set", "fset", "del", "jset", "pdel"} {
 		m := base()
 		tot := 0
 		for _, v := range m {
 			tot += v
 		}
-		m[k] += 3 * tot // three quarters of the operations
-		if k == "persist" || k == "expire" {
-			// PERSIST only touches an object that has a TTL, EXPIRE gives it one: keep both flowing
-			m["persist"] += tot
-			m["expire"] += tot
-		}
+		m[k] += 19 * tot // 95% of the operations
 		if k == "set" {
 			m["setex"] += tot
 		}
@@ -222,6 +218,15 @@ func (s *cshared) count(k string, n int) {
 func (cw *cworld) writeOnce(w *cwriter, c *srv.Conn, rng *rand.Rand, ph cphase, centre [2]float64, sh *cshared) bool {
 	kind := pickKind(rng, ph.weight)
 	id := w.ids[rng.Intn(len(w.ids))]
+	if kind == "persist" || kind == "expire" {
+		// aim PERSIST at an object that has a TTL and EXPIRE at one that has none, when there is one
+		for try := 0; try < 8; try++ {
+			if h := w.hist[id]; !w.vague[id] && h[len(h)-1].present && w.ttl[id] == (kind == "persist") {
+				break
+			}
+			id = w.ids[rng.Intn(len(w.ids))]
+		}
+	}
 	var args []string
 	type change struct {
 		id  string
@@ -438,6 +443,9 @@ func fnum(v srv.Value) (float64, bool) {
 }
 
 func cParseRESP(x cquery, v srv.Value) (es []centry, count int64, err error) {
+	if x.output == "count" && v.Kind == ':' {
+		return nil, v.Int, nil
+	}
 	if v.Kind != '*' || len(v.Array) != 2 {
 		return nil, 0, fmt.Errorf("unexpected reply %.200s", v.String())
 	}
@@ -782,6 +790,7 @@ func (cw *cworld) reader(idx int, port int, seed int64, centre [2]float64, ph *a
 		return
 	}
 	defer c.Close()
+	c.Timeout = 60 * time.Second
 	jsonOut := idx%3 == 2
 	if jsonOut {
 		if _, err := c.Do("OUTPUT", "json"); err != nil {
@@ -913,6 +922,7 @@ func concurrent(r *hx.Result, cfg hx.Config, rng *rand.Rand, nobj, nwriters, nre
 				return
 			}
 			defer c.Close()
+			c.Timeout = 60 * time.Second // an exclusive write waits for a gap between the shared sections
 			for !sh.stop.Load() && !sh.dead.Load() {
 				if !cw.writeOnce(w, c, wr, cur.Load().(cphase), centre, sh) {
 					return
@@ -960,7 +970,16 @@ func concurrent(r *hx.Result, cfg hx.Config, rng *rand.Rand, nobj, nwriters, nre
 		}
 	}
 	if !alive || sh.dead.Load() {
-		tail := s.LogTail(1500)
+		tail := s.LogTail(60000)
+		for _, mark := range []string{"panic:", "fatal error:", "unexpected fault address"} {
+			if i := strings.Index(tail, mark); i >= 0 {
+				tail = tail[i:]
+				break
+			}
+		}
+		if len(tail) > 1500 {
+			tail = tail[:1500]
+		}
 		sh.fail("knn-concurrent-server-died", "the server did not survive NEARBY queries running concurrently with writes on the same collection; end of its log: "+tail,
 			map[string]interface{}{"server_log_tail": tail})
 	}
